@@ -37,6 +37,8 @@ SHAPES_3D = [
     # table dimensions of the other categorical kinds (dated, enum-backed, logical)
     ("cat_date", "cat", "cat"), ("text", "cat", "mr"), ("datetime", "mr", "cat"),
     ("numeric", "cat", "cat"), ("logical", "cat", "cat"),
+    # a categorical array inside a table variable (items x categories, or transposed)
+    ("cat", "cai", "cac"), ("mr", "cai", "cac"), ("cat", "cac", "cai"), ("cat_date", "cai", "cac"),
 ]
 
 
@@ -49,6 +51,9 @@ def scenario_st(draw, shapes, max_n=24,
         # deeper bounds in the thorough tier (reported in the evidence file)
         max_n, max_valid, max_items = max(max_n, 48), max_valid + 2, max_items + 1
     n = draw(S.n_st(max_n, min_n))
+    if env.debug_shapes():
+        # exploration aid only (never set by a registered command): restrict to given shapes
+        shapes = env.debug_shapes()
     shape = draw(st.sampled_from(shapes))
     weights = draw(S.weights_st(n, weight_kinds))
     svars = {}
